@@ -13,6 +13,7 @@
    (C17_sync_spec); every toplevel statement starts with the panic flag cleared, at depth 0, on a non-end token
    (C17_statements_start_clean), and a statement that ends in panic has added at least one diagnostic of its own
    (C17_rejected_is_reported): a later faulty statement always gets its own diagnostic. *)
+From BCL Require Import Proofs.LayoutProofs Proofs.LayoutTree Proofs.LexLayout Proofs.LexWrite Proofs.LexSound.
 From BCL Require Import Model.Api Proofs.LineCalcProofs Proofs.LexerProofs Proofs.ParserInvProofs.
 Open Scope N_scope.
 From BCL Require Import Model.Compile Spec.Syntax Proofs.T2Expr Proofs.T2Proofs Proofs.Language.
@@ -155,6 +156,25 @@ Print Assumptions C17_rejected_is_reported.
 Theorem C17_log_only_grows : forall ts, step_ok (init_pst ts) (parse_tokens ts).
 Proof. first [exact DiagProofs.parse_tokens_step_ok | apply DiagProofs.parse_tokens_step_ok]. Qed.
 Print Assumptions C17_log_only_grows.
+
+(* every token the lexer emits has the shape the lexical grammar gives its type (identifiers, decimal and hex integers, floats with fraction or exponent, quoted strings, keywords, punctuation) *)
+Theorem C17_lexical_grammar_sound : forall cs t, In t (fst (lex cs)) ->
+  ttyp t <> tEOF -> ttyp t <> tERR -> ttyp t <> tFAIL -> lexable' t.
+Proof. first [exact LexSound.lex_tokens_lexable | apply LexSound.lex_tokens_lexable]. Qed.
+Print Assumptions C17_lexical_grammar_sound.
+
+(* and every such text is emitted as that token for some input *)
+Theorem C17_lexical_grammar_exact : forall ty v,
+  lexable' (ltok ty v 0) <->
+  exists cs t, In t (fst (lex cs)) /\ ttyp t = ty /\ tval t = v /\ ty <> tEOF /\ ty <> tERR /\ ty <> tFAIL.
+Proof. first [exact LexSound.lexable'_exact | apply LexSound.lexable'_exact]. Qed.
+Print Assumptions C17_lexical_grammar_exact.
+
+(* a sequence of lexable texts separated by white space is read back as exactly those tokens *)
+Theorem C17_lexical_grammar_complete : forall sep ts, sep <> [] -> Forall ws_byte sep -> Forall lexable ts ->
+  map strip (fst (lex [render_sep sep ts])) = map strip ts ++ [(tEOF, [])].
+Proof. first [exact LexWrite.lex_render_any_sep | apply LexWrite.lex_render_any_sep]. Qed.
+Print Assumptions C17_lexical_grammar_complete.
 
 Example C17_example :
   pr_ok (parse_whole (bs "f") (bs "var x = 1 def b { y = x; z = (y = 2) } print x; bind b -> struct")) = true
